@@ -335,7 +335,7 @@ def q_jobs(bindir, prop, tier, seed, seq_enum=True, caps="unbounded,1,2,3", drop
     if blocked:
         jobs += shards(bindir, "queue_conc", prop + "-blocked", seed, NCPU, base + ["--mode", "blocked", "--cases", "60" if quick else "4000"] + ([] if quick else ["--big"]), 3400,
                        per_shard_args=lambda i: ["--huge-first"] if i == 0 or (not quick and i < 4) else [])
-    if prop in ("C09", "C08", "C10", "C11"):
+    if prop in ("C09", "C08", "C10", "C11", "C16"):
         # a backlog behind a sink that takes ten (virtual) minutes per metric, hour-long idle periods: Miri's virtual clock
         jobs.append(miri_time_job(prop, seed, 4 if quick else 64, 1500 if quick else 7200))
     # Miri: compact histories under a random preemptive scheduler, hooks off; virtual-time quiescence
@@ -422,7 +422,7 @@ def _c15(bindir, tier, seed):
 
 @plan("C16")
 def _c16(bindir, tier, seed):
-    return q_jobs(bindir, "C16", tier, seed, seq_enum=False, outcomes=("oe", 7, 10), focus="error")
+    return q_jobs(bindir, "C16", tier, seed, seq_enum=False, outcomes=("oe", 7, 10), focus="error", storm=True)
 
 
 # ---- C18 ---------------------------------------------------------------------------------------------------
@@ -686,7 +686,7 @@ meta("C20", level="exploration",
 def _c20(bindir, tier, seed):
     q = tier == QUICK
     jobs = []
-    for area, n, cases_q, cases_t in (("format", 8, 30, 1500), ("writer", 3, 20000, 400000), ("sinks", 2, 1500, 40000), ("queue", 2, 1500, 30000), ("misc", 1, 200, 2000), ("tls", 1, 64, 2000)):
+    for area, n, cases_q, cases_t in (("format", 8, 30, 1500), ("writer", 3, 20000, 400000), ("sinks", 2, 1500, 40000), ("queue", 2, 1500, 30000), ("misc", 1, 200, 2000), ("tls", 1, 64, 2000), ("smallstack", 1, 60, 2000)):
         js = shards(bindir, "hostile_driver", "C20-" + area, seed, n, ["--area", area, "--cases", str(cases_q if q else cases_t)], 3400)
         # the last shard of each area runs with an unwritable standard error and the usual DogStatsD variables set
         js[-1].env = dict(HOSTILE_ENV)
